@@ -128,4 +128,47 @@ theorem mem_batches_of_lt (ws : List Nat) (batchSize pad i : Nat) (hi : i < ws.l
   rw [List.any_eq_true]
   exact ⟨b, hb, by simpa using hib⟩
 
+theorem ceil32_mono {a b : Nat} (h : a ≤ b) : ceil32 a ≤ ceil32 b := by
+  unfold ceil32; omega
+
+/-- pixel budget of the chunking loop: a batch of more than one line fits the budget at the padded
+width of EACH of its lines (hence of its widest) -/
+theorem batchesAux_budget (ws : List Nat) (budget pad : Nat) :
+    ∀ (fuel : Nat) (ids : List Nat),
+      ids.Pairwise (fun a b => widthOf ws a ≥ widthOf ws b) →
+      ∀ b ∈ batchesAux ws budget pad fuel ids,
+        b.1.length = 1 ∨ ∀ i ∈ b.1, b.1.length * ceil32 (widthOf ws i) ≤ budget := by
+  intro fuel
+  induction fuel with
+  | zero => intro ids _ b hb; simp [batchesAux] at hb
+  | succ fuel ih =>
+    intro ids hp b hb
+    cases ids with
+    | nil => simp [batchesAux] at hb
+    | cons i rest =>
+      simp only [batchesAux] at hb
+      rcases List.mem_cons.mp hb with rfl | hb
+      · simp only
+        by_cases hq : 1 ≤ budget / ceil32 (widthOf ws i)
+        · right
+          intro j hj
+          have hj' : j ∈ i :: rest := List.mem_of_mem_take hj
+          have hw : widthOf ws j ≤ widthOf ws i := by
+            rcases List.mem_cons.mp hj' with rfl | hjr
+            · exact Nat.le_refl _
+            · exact (List.pairwise_cons.mp hp).1 j hjr
+          have hm := ceil32_mono hw
+          have hpos : 0 < ceil32 (widthOf ws i) := by
+            rcases Nat.eq_zero_or_pos (ceil32 (widthOf ws i)) with h0 | h0
+            · rw [h0, Nat.div_zero] at hq; omega
+            · exact h0
+          have hlen : ((i :: rest).take (max 1 (budget / ceil32 (widthOf ws i)))).length
+              ≤ budget / ceil32 (widthOf ws i) := by
+            rw [List.length_take]; omega
+          have h1 := (Nat.le_div_iff_mul_le hpos).1 hlen
+          exact Nat.le_trans (Nat.mul_le_mul_left _ hm) h1
+        · left
+          have : max 1 (budget / ceil32 (widthOf ws i)) = 1 := by omega
+          rw [this]; simp
+      · exact ih _ (hp.sublist (List.drop_sublist _ _)) b hb
 end Bat
